@@ -21,7 +21,7 @@ func checkC12(c *Ctx, r *Report) {
 	}
 	protoKeys(r, p)
 	protoDecoders(r, p)
-	r.Floor("protocol_paths", 15)
+	r.Floor("protocol_paths", 6)
 }
 
 // c12ValidatedScalars: each call of internal.ScalarBaseMult from package sm2 is dominated by a validation of its argument.
